@@ -295,6 +295,19 @@ func (p *Program) computeStub(fn *ssa.Function) stubFn {
 		return stubMutexLock
 	case "(*sync.Mutex).Unlock":
 		return stubMutexUnlock
+	case "(*sync.Mutex).TryLock":
+		return func(ex *Exec, fn *ssa.Function, args []Value) Value {
+			p := mutexState(ex, args[0])
+			if ex.threads != nil {
+				return ex.threads.tryLockEvent(ex, p)
+			}
+			st := ex.term(ex.cellRead(p.Obj, p.Off), "mutex state")
+			if ex.branch(ex.tt.Eq(st, ex.tt.Const(st.W, 0))) {
+				ex.cellWrite(p.Obj, p.Off, ex.tt.Const(st.W, 1))
+				return ex.tt.True
+			}
+			return ex.tt.False
+		}
 	case "time.Unix":
 		return func(ex *Exec, fn *ssa.Function, args []Value) Value {
 			sec, nsec := ex.term(args[0], "sec"), ex.term(args[1], "nsec")
